@@ -608,33 +608,37 @@ func (x *g) para(top bool) Block {
 	return b
 }
 
+func (x *g) table(tdepth int) Block {
+	rows := rapid.IntRange(1, 2).Draw(x.t, "rows")
+	cols := rapid.IntRange(1, 3).Draw(x.t, "cols")
+	b := Block{K: "tbl"}
+	for c := 0; c < cols; c++ {
+		b.Widths = append(b.Widths, 1500+c*100)
+	}
+	for r := 0; r < rows; r++ {
+		var row []Cell
+		for c := 0; c < cols; c++ {
+			cell := Cell{}
+			if tdepth < 1 && x.feat(FNestedTable, 20, "nested") {
+				if rapid.Bool().Draw(x.t, "para-before-nested") {
+					cell.Blocks = append(cell.Blocks, x.para(false))
+				}
+				cell.Blocks = append(cell.Blocks, x.table(tdepth+1))
+			}
+			// a cell always ends with a paragraph
+			cell.Blocks = append(cell.Blocks, x.para(false))
+			row = append(row, cell)
+		}
+		b.Rows = append(b.Rows, row)
+	}
+	return b
+}
+
 func (x *g) block(tdepth int, top bool) Block {
 	k := rapid.SampledFrom([]string{"p", "p", "p", "p", "p", "p", "p", "tbl", "tbl", "sdt"}).Draw(x.t, "block")
 	switch {
-	case k == "tbl" && !x.no(FTable) && tdepth < 2 && (tdepth == 0 || !x.no(FNestedTable)):
-		rows := rapid.IntRange(1, 2).Draw(x.t, "rows")
-		cols := rapid.IntRange(1, 3).Draw(x.t, "cols")
-		b := Block{K: "tbl"}
-		for c := 0; c < cols; c++ {
-			b.Widths = append(b.Widths, 1500+c*100)
-		}
-		for r := 0; r < rows; r++ {
-			var row []Cell
-			for c := 0; c < cols; c++ {
-				cell := Cell{}
-				if tdepth < 1 && !x.no(FNestedTable) && x.pct(18, "nested") {
-					cell.Blocks = append(cell.Blocks, x.block(tdepth+1, false))
-					if cell.Blocks[0].K != "tbl" {
-						cell.Blocks = cell.Blocks[:0]
-					}
-				}
-				// a cell always ends with a paragraph
-				cell.Blocks = append(cell.Blocks, x.para(false))
-				row = append(row, cell)
-			}
-			b.Rows = append(b.Rows, row)
-		}
-		return b
+	case k == "tbl" && !x.no(FTable):
+		return x.table(tdepth)
 	case k == "sdt" && !x.no(FBlockSdt) && top:
 		b := Block{K: "sdt", Name: "block control"}
 		n := rapid.IntRange(1, 2).Draw(x.t, "sdtblocks")
